@@ -87,7 +87,7 @@ structure AbOK (g : Cfg) (a : Rec) (tail : Bytes) (pr : Bool) (rest : List HOp) 
   hU : g.U = a.ser ++ tail
   hOt : g.Ot = owedStream g.p.id 5 g.mc g.body
   mode : HMode g pr rest
-  /-- model fuel: `handlerPoll` gets `1000 + 4·|input|` units per poll -/
+  /-- model fuel: `handlerPoll` gets at least `1000 + 4·|input|` units per poll (plus `4·cap`, not used here) -/
   hfu : alignedBufsize g.b / 32 + 12 ≤ 1000
 
 /-- the handler's failed `readAll` is in the trace; it had collected a prefix of the content sent -/
@@ -351,12 +351,12 @@ theorem bread_core {g : Cfg} {a : Rec} {tail : Bytes} {pr : Bool} {rest : List H
   have hK := kaok ok
   obtain ⟨G0, hi0⟩ := hs.inv
   have hrl := hi0.rem_leA hK
-  have hfuel := handlerFuel_ge c.env
+  have hfuel := handlerFuel_ge c.env r
   have hfu := ok.hfu
   have hcapK : g.KA.cap = alignedBufsize g.b := rfl
   have hstep := C07.handler_step c r _ hph
   rcases readAll_runA hK (L := g.L1) (P := []) rest [] prop
-      (2 * ((g.KA.C.length - (accOf sub).length) / 64) + 2 * c.env.tr.input.length + 2) (handlerFuel c.env)
+      (2 * ((g.KA.C.length - (accOf sub).length) / 64) + 2 * c.env.tr.input.length + 2) (handlerFuel c.env r)
       r sub c.env dO 1 (by omega) (by omega) (fun h => by omega) hb hs with
     ⟨r', acc', e', dO', d1, d3, d5, d6, d8, d9, d10⟩ |
     ⟨r', acc, lost, e', f', d1, d2, d3, d4, d5, d6, d7, d8⟩
